@@ -23,6 +23,14 @@ claimed = {
    'Component world: real archive reader feeding the real archive writer with independent tape-chosen read sizes and write segmentations, every single cut position for streams of at most 200 bytes, sources shrunk or grown between scan and read; system world: directories sent as one archive stream between the real client and real trz/tsz mains, including 150-300 entry trees, with the open-descriptor count of the process sampled at every quiescent point of the schedule (GC disabled so finalizers cannot hide a leak). Oracles: reconstructed tree = source tree, bytes produced = announced size, shrink reported as error, descriptors do not grow with the entry count.',
    'All simulated parties share one OS process, so descriptor counts are for client+server together; GC is disabled during a run on purpose.',
    'deterministic simulation (component + whole-system) with segmentation enumeration for short streams and a descriptor monitor', '§4 C15'),
+ 'C02': ('exploration',
+   'Seeded deterministic simulation of transfers in which 1-3 byte-level faults (bit flip, deletion, duplication, insertion, tail truncation) hit tape-chosen chunks and positions (biased to the structural bytes of a protocol line) of either direction of one hop, in every phase from ACT to EXIT, for base64/binary/compressed/escaped transfers, protocols 1-4 and resume with hash exchange; oracle: any side that reports success names only files that are byte-identical to their sources, and otherwise both roles end (no hang). The trigger line itself is exempt (before it is recognised there is no transfer).',
+   'Same-tree peers. Sampling of fault placements; per-position enumeration is planned for the thorough tier but not claimed.',
+   'deterministic simulation with seeded byte-fault injection on the in-memory links; FS + report oracles', '§4 C02'),
+ 'C11': ('exploration',
+   'Seeded deterministic simulation of transfers with one flow or local fault injected after the server has consumed the ACT: a direction or both go silent, a link closes or starts failing writes, a destination write fails (optionally after a short write), a source read fails, the source file shrinks under the reader, or a process is stalled for T/2, 1.5T or 3T; T in {2,5,20} s on the fake clock. Oracles: both roles return within 3*max(T,20s)+10s of the fault (hang = quiescence with a role still inside the transfer), a side reporting success has correct files, a failing side that can still talk writes a fail/FAIL line unless its error was the peer message, and after a grace period of 2T+2s no goroutine of the client process is still inside transfer worker code (goroutine dump filtered by bubble and simulated process).',
+   'Same-tree peers; faults before the server has consumed the ACT are not placed (trz/tsz wait for the ACT without a timer by design); T <= 0 is not exercised.',
+   'deterministic simulation with seeded flow/disk/process faults; termination, report and goroutine-leak monitors on the fake clock', '§4 C11'),
 }
 pending_reason = 'check not built yet in this session (deterministic simulation planned, see DESIGN.md §4); not claimed'
 checks = []
